@@ -1307,13 +1307,39 @@ class Gen:
         lines = [l for l in out.split("\n")]
         return "\n".join(lines).strip("\n")
 
+    def register_lemmas(self, modpath, s0, e0):
+        """hand-written `proof fn`s of a ghost block become named obligations `<module>::lemma NAME`;
+        a doc comment `/// [C01,C02] ...` directly above gives the properties they serve"""
+        lines = self.out[s0 - 1:e0]
+        i = 0
+        while i < len(lines):
+            m = re.match(r"^\s*(pub\s+)?(broadcast\s+)?proof fn ([A-Za-z0-9_]+)", lines[i])
+            if m:
+                tags = []
+                j = i - 1
+                while j >= 0 and lines[j].strip().startswith("///"):
+                    t = re.search(r"\[(C\d\d(?:\s*,\s*C\d\d)*)\]", lines[j])
+                    if t:
+                        tags = [x.strip() for x in t.group(1).split(",")]
+                    j -= 1
+                # end of the lemma: first line at or after i whose text is `}` at the fn's indentation
+                ind = len(lines[i]) - len(lines[i].lstrip())
+                k = i
+                while k < len(lines) and not (lines[k].replace("//@g", "").rstrip() == " " * ind + "}"):
+                    k += 1
+                self.fns.append({"qual": "%s::lemma %s" % (modpath, m.group(3)), "module": modpath, "start": s0 + i, "end": s0 + min(k, len(lines) - 1),
+                                 "auto": list(tags), "tags": list(tags), "src": "contracts (hand-written lemma)", "has_body": True, "clauses": [], "lemma": True})
+                i = k
+            i += 1
+
     # -- module tree ------------------------------------------------------------------------------
     def gen_module_body(self, mod):
         sf = self.src(mod.opts["file"]) if mod.opts.get("file") else None
         modpath = mod.arg
         for c in mod.children:
             if c.kind == "ghost":
-                self.emit_ghost(c.text, None)
+                s0, e0 = self.emit_ghost(c.text, None)
+                self.register_lemmas(modpath, s0, e0)
             elif c.kind == "item":
                 self.gen_item(modpath, sf, c)
             elif c.kind == "fn":
